@@ -155,6 +155,24 @@ func init() {
 		c.hasKV, c.key, c.val = true, a[1], a[2]
 		return i
 	})
+	// zz.WithRemote(ctx, addr): the remote peer's address as the gRPC server would attach it; read back by
+	// the modelled internal/net.RemoteAddress
+	reg(zzPkg+".WithRemote", func(p *Path, fn *ssa.Function, a []Value) Value {
+		parent := ctxFrom(p, a[0])
+		c, i := p.newCtx(parent)
+		c.hasKV, c.key, c.val = true, StrC("zz:remote-address"), a[1]
+		return i
+	})
+	reg(modPath+"/internal/net.RemoteAddress", func(p *Path, fn *ssa.Function, a []Value) Value {
+		for x := ctxFrom(p, a[0]); x != nil; x = x.parent {
+			if x.hasKV {
+				if k, ok := x.key.(Str); ok && k.IsConc() && k.Conc() == "zz:remote-address" {
+					return x.val
+				}
+			}
+		}
+		return StrC("")
+	})
 	reg("context.WithoutCancel", func(p *Path, fn *ssa.Function, a []Value) Value { _, i := p.newCtx(nil); return i })
 	reg("context.Cause", func(p *Path, fn *ssa.Function, a []Value) Value {
 		c := ctxFrom(p, a[0])
